@@ -42,8 +42,34 @@ fn eval(c: &Case, stats: &mut BTreeMap<String, u64>) -> (String, String) {
     for (k, v) in obs.counts.borrow().iter() { *stats.entry(k.to_string()).or_default() += v; }
     let imp = r.unwrap_or_else(|_| "panic".into());
     *stats.entry(format!("result_{}", imp.split(' ').next().unwrap())).or_default() += 1;
+    // C04, first sentence: a successful parse yields a well-formed token stream. The same program is run once more through
+    // pest::state (no observers), and the Pairs it returns are walked in full.
+    let wf = if imp.starts_with("ok") {
+        pest::set_call_limit(c.limit.and_then(NonZeroUsize::new));
+        let r = catch(|| match pest::state::<R, _>(input, |s| verif_harness::prog::run_fast(&c.main, &c.env, s)) {
+            Ok(pairs) => { let n_tok = pairs.clone().tokens().count(); let n_flat = pairs.clone().flatten().count();
+                if n_tok != 2 * n_flat { return Some(format!("{} tokens for {} pairs", n_tok, n_flat)); }
+                walk_pairs(pairs, 0, input.len(), input) }
+            Err(_) => None });
+        pest::set_call_limit(None);
+        match r { Ok(None) => None, Ok(Some(m)) => Some(m), Err(m) => Some(format!("walking the pairs of a successful parse panicked: {}", m)) }
+    } else { None };
     let fails = obs.fails.borrow();
-    (imp, if fails.is_empty() { "ok".into() } else { format!("FAIL {}", fails[0]) })
+    (imp, if let Some(m) = wf { format!("FAIL token stream of a successful parse is not a well-formed tree: {}", m) } else if fails.is_empty() { "ok".into() } else { format!("FAIL {}", fails[0]) })
+}
+
+/// every pair lies inside [lo, hi] on character boundaries, siblings are ordered and do not overlap, children lie inside
+fn walk_pairs(pairs: pest::iterators::Pairs<'_, R>, lo: usize, hi: usize, input: &str) -> Option<String> {
+    let mut at = lo;
+    for p in pairs {
+        let sp = p.as_span();
+        if sp.start() < at || sp.end() < sp.start() || sp.end() > hi || !input.is_char_boundary(sp.start()) || !input.is_char_boundary(sp.end()) {
+            return Some(format!("pair {:?} at {}..{} outside {}..{} or before its sibling's end {}", p.as_rule(), sp.start(), sp.end(), lo, hi, at)); }
+        if p.as_str() != &input[sp.start()..sp.end()] { return Some(format!("as_str of {:?} is not its span", p.as_rule())); }
+        at = sp.end();
+        if let Some(m) = walk_pairs(p.into_inner(), sp.start(), sp.end(), input) { return Some(m); }
+    }
+    None
 }
 
 // ---------------------------------------------------------------- generator
